@@ -173,4 +173,13 @@ CLAIMS["C07"] = dict(
     note=(TRUST + "Not decided: equality with the sequential result and disjointness of the output windows (depend on partition values, see C08)."),
 )
 
+CLAIMS["C04"] = dict(
+    level="other",
+    technique="static analysis: use-after-release rule over the CFG of every member function of the self-deleting job classes (release points: substep_notify_done, delete this, own phase-counter decrement, unheld enqueue), add-before-enqueue adjacency, atomic RMW result/order rules, dominance rules for phase arming and completion barrier, must-pass-through for copy_back",
+    text=("USE-AFTER-RELEASE over all member functions of PS5SmallsortJob / PS5BigSortStep / PS5SortStep in all instantiations (found and fixed two heap-use-after-free defects: "
+          "distribute_finished touching bkt_ after the final notify; sample()/count_finished() re-reading parts_ after the last enqueue), ADD-BEFORE-ENQUEUE, HANDLE-PAIR, "
+          "RMW-RESULT (incl. memory order), PHASE-ARM, COMPLETION-BARRIER, COPY-BACK. Memory-safety and hand-over conditions for every schedule and every tuning of the thresholds."),
+    note=(TRUST + "Frozen table: functions running under run()'s anonymous handle. Not decided: sortedness and LCP values, full data-race freedom of the bucket arrays, termination; the ThreadPool is C10."),
+)
+
 NOT_APPLICABLE = {}
